@@ -99,8 +99,13 @@ func (e *Engine) resolveAlias(st *State, s *Term) *Term {
 }
 
 // writeTok appends a token to stream s (fan-out through MultiWriters).
+var discardRef = BVConst(freshRefBase-1, 64)
+
 func (e *Engine) writeTok(st *State, s *Term, t tokVal) {
 	s = e.resolveAlias(st, s)
+	if s == discardRef {
+		return
+	}
 	if mw, ok := st.ghost["$mw/"+s.String()]; ok {
 		for _, sink := range mw.L {
 			e.writeTok(st, sink, t)
@@ -303,6 +308,38 @@ func streamModels(name string) modelFn {
 			e.readBytesInto(st, streamRef(args[0]), buf)
 			return Val{RT, append([]*Term{buf.sLen()}, nilError().L...)}, true
 		}
+	case "io.CopyN":
+		return func(e *Engine, st *State, fr *Frame, fn *ssa.Function, args []Val, in ssa.Instruction) (Val, bool) {
+			RT := fn.Signature.Results()
+			n := args[2].t()
+			e.ioFail(st, fr, in, bindOf(in), func(o *State, err Val) Val {
+				w := FreshVar("ncopied", Ref64)
+				o.assume(Ult(w, n))
+				e.havocStream(o, e.resolveAlias(o, streamRef(args[1])), false)
+				e.havocStream(o, e.resolveAlias(o, streamRef(args[0])), true)
+				return Val{RT, append([]*Term{w}, err.L...)}
+			})
+			// n <= 0 copies nothing
+			if !Sle(n, BVConst(0, 64)).IsFalse() && fr != nil && in != nil {
+				o := st.clone()
+				o.assume(Sle(n, BVConst(0, 64)))
+				if !o.dead {
+					res := Val{RT, append([]*Term{BVConst(0, 64)}, nilError().L...)}
+					if b := bindOf(in); b != nil {
+						res.T = b.Type()
+						o.top().regs[b] = res
+					}
+					e.work = append(e.work, o)
+				}
+				st.assume(Slt(BVConst(0, 64), n))
+			}
+			t := e.readTok(st, streamRef(args[1]))
+			match := And(Eq(t.kind, BVConst(tkBlk, 8)), Eq(t.n, n))
+			cid := Ite(match, t.cid, FreshVar("ref!anyblk", Ref64))
+			m := Ite(match, t.m, BVConst(0, 8))
+			e.writeTok(st, streamRef(args[0]), tokVal{BVConst(tkBlk, 8), m, n, cid, BVConst(0, 64)})
+			return Val{RT, append([]*Term{n}, nilError().L...)}, true
+		}
 	case "io.WriteString":
 		return func(e *Engine, st *State, fr *Frame, fn *ssa.Function, args []Val, in ssa.Instruction) (Val, bool) {
 			RT := fn.Signature.Results()
@@ -374,6 +411,20 @@ func streamModels(name string) modelFn {
 	case "(*bytes.Buffer).Bytes":
 		return func(e *Engine, st *State, fr *Frame, fn *ssa.Function, args []Val, in ssa.Instruction) (Val, bool) {
 			s := e.resolveAlias(st, streamRef(args[0]))
+			if d := Sub(wposOf(st, s), rposOf(st, s)); d.Op == OConst && d.Val == 1 {
+				t := e.tokLoad(st, s, rposOf(st, s))
+				if t.kind.Op == OConst && t.kind.Val == tkBlk {
+					// exactly one block of raw bytes: the slice holds these bytes
+					ref := st.alloc()
+					e.zeroSlice(st, types.Typ[types.Uint8], ref)
+					data := mkSlice(byteSliceT(), ref, BVConst(0, 64), t.n, FreshVar("cap", Ref64))
+					st.assume(Ule(t.n, data.sCap()))
+					st.assume(Ule(data.sCap(), BVConst(maxLen*2, 64)))
+					e.blkRead(st, t.cid, data, t.n)
+					st.ghost["$strsrc/"+ref.String()] = Val{nil, []*Term{Eq(t.m, BVConst(1, 8)), t.cid, BVConst(0, 64), t.n}}
+					return data, true
+				}
+			}
 			// the returned slice denotes the unread token range; its bytes are not modelled individually
 			// (an "old" symbolic reference: contents unconstrained)
 			ref := FreshVar("ref!bufbytes", Ref64)
@@ -518,6 +569,8 @@ func (e *Engine) readBytesInto(st *State, s *Term, buf Val) {
 	match := And(Eq(t.kind, BVConst(tkBlk, 8)), Eq(t.n, n))
 	cid := Ite(match, t.cid, FreshVar("ref!anyblk", Ref64))
 	e.blkRead(st, cid, buf, n)
+	// remember where these bytes came from: string(buf) of a text block written by io.WriteString is that string
+	st.ghost["$strsrc/"+buf.sRef().String()] = Val{nil, []*Term{And(match, Eq(t.m, BVConst(1, 8))), cid, buf.sOff(), n}}
 }
 
 func modelWrite(e *Engine, st *State, fr *Frame, fn *ssa.Function, args []Val, in ssa.Instruction) (Val, bool) {
@@ -537,6 +590,21 @@ func modelWrite(e *Engine, st *State, fr *Frame, fn *ssa.Function, args []Val, i
 	} else if n.Op == OConst && n.Val == 0 {
 		// nothing
 	} else {
+		if n.Op != OConst && fr != nil && in != nil {
+			// an empty write leaves no token: explore it as a separate path
+			o := st.clone()
+			o.assume(Eq(n, BVConst(0, 64)))
+			o.trace = append(o.trace, "write0")
+			if !o.dead {
+				res := Val{RT, append([]*Term{BVConst(0, 64)}, nilError().L...)}
+				if b := bindOf(in); b != nil {
+					res.T = b.Type()
+					o.top().regs[b] = res
+				}
+				e.work = append(e.work, o)
+			}
+			st.assume(Not(Eq(n, BVConst(0, 64))))
+		}
 		cid := e.blkContent(st, p)
 		e.writeTok(st, s, mkTok(tkBlk, nil, n, cid))
 	}
@@ -705,6 +773,165 @@ func findIfaceMethod(T types.Type, name string) *types.Func {
 	for i := 0; i < it.NumMethods(); i++ {
 		if it.Method(i).Name() == name {
 			return it.Method(i)
+		}
+	}
+	return nil
+}
+
+// ---------- encoding/binary.Write / Read on fixed-size values ----------
+
+func orderIsLE(order Val) (bool, bool) {
+	t := order.iTag()
+	if t.Op != OConst {
+		return false, false
+	}
+	T := typeOfTag[t.Val]
+	if T == nil {
+		return false, false
+	}
+	n := typeName(T)
+	switch n {
+	case "binary.bigEndian":
+		return false, true
+	case "binary.littleEndian":
+		return true, true
+	}
+	return false, false
+}
+
+func fixTok(width int, le bool, v *Term) tokVal {
+	m := uint64(width)
+	if le && width > 1 {
+		m |= 0x80
+	}
+	return mkTok(tkFix, BVConst(m, 8), ZExt(v, 64), nil)
+}
+
+// binWriteVal writes a fixed-size value field by field (as encoding/binary does).
+func (e *Engine) binWriteVal(st *State, s *Term, v Val, le bool) {
+	switch u := v.T.Underlying().(type) {
+	case *types.Basic:
+		if u.Info()&types.IsInteger != 0 {
+			e.writeTok(st, s, fixTok(v.t().S.W/8, le, v.t()))
+			return
+		}
+		if u.Info()&types.IsBoolean != 0 {
+			e.writeTok(st, s, fixTok(1, le, Ite(v.t(), BVConst(1, 8), BVConst(0, 8))))
+			return
+		}
+	case *types.Struct:
+		for i := 0; i < u.NumFields(); i++ {
+			e.binWriteVal(st, s, v.field(i), le)
+		}
+		return
+	case *types.Array:
+		for i := 0; i < int(u.Len()); i++ {
+			e.binWriteVal(st, s, v.arrayElem(i), le)
+		}
+		return
+	case *types.Slice:
+		if b, ok := u.Elem().Underlying().(*types.Basic); ok && b.Kind() == types.Uint8 {
+			if v.sLen().Op == OConst && v.sLen().Val == 0 {
+				return
+			}
+			cid := e.blkContent(st, v)
+			e.writeTok(st, s, mkTok(tkBlk, nil, v.sLen(), cid))
+			return
+		}
+	case *types.Pointer:
+		e.binWriteVal(st, s, st.loadAt(ptrInfo(v), u.Elem()), le)
+		return
+	}
+	panic(unsupported("binary.Write of " + typeName(v.T)))
+}
+
+func (e *Engine) binReadInto(st *State, s *Term, pi *PtrInfo, T types.Type, le bool, in ssa.Instruction) {
+	switch u := T.Underlying().(type) {
+	case *types.Basic:
+		if u.Info()&types.IsInteger != 0 {
+			w := basicSort(u).W
+			t := e.readTok(st, s)
+			// reader-defined tokenisation: a fixed-width read sees a fixed-width token of that width
+			st.assume(Eq(t.kind, BVConst(tkFix, 8)))
+			st.assume(Eq(BAnd(t.m, BVConst(0x7f, 8)), BVConst(uint64(w/8), 8)))
+			st.assume(Ule(t.n, BVConst(mask(w), 64)))
+			same := Eq(BAnd(t.m, BVConst(0x80, 8)), BVConst(map[bool]uint64{true: 0x80, false: 0}[le], 8))
+			raw := Extract(w-1, 0, t.n)
+			val := raw
+			if w > 8 {
+				val = Ite(same, raw, bswap(raw))
+			}
+			if in != nil {
+				e.checkAssigns(st, pi, T, in)
+			}
+			st.storeAt(pi, Val{T, []*Term{val}})
+			return
+		}
+	case *types.Struct:
+		for i := 0; i < u.NumFields(); i++ {
+			f := u.Field(i)
+			e.binReadInto(st, s, pi.field(f.Name(), f.Type()), f.Type(), le, in)
+		}
+		return
+	}
+	panic(unsupported("binary.Read into " + typeName(T)))
+}
+
+func bswap(t *Term) *Term {
+	n := t.S.W / 8
+	var r *Term
+	for i := 0; i < n; i++ {
+		b := Extract(i*8+7, i*8, t)
+		if r == nil {
+			r = b
+		} else {
+			r = Concat(r, b)
+		}
+	}
+	return r
+}
+
+func binaryModels(name string) modelFn {
+	switch name {
+	case "encoding/binary.Write":
+		return func(e *Engine, st *State, fr *Frame, fn *ssa.Function, args []Val, in ssa.Instruction) (Val, bool) {
+			le, ok := orderIsLE(args[1])
+			if !ok {
+				return Val{}, false
+			}
+			data := args[2]
+			if data.iTag().Op != OConst {
+				return Val{}, false
+			}
+			T := typeOfTag[data.iTag().Val]
+			e.ioFail(st, fr, in, bindOf(in), func(o *State, err Val) Val { return err })
+			e.binWriteVal(st, streamRef(args[0]), e.unbox(st, data, T), le)
+			return nilError(), true
+		}
+	case "encoding/binary.Read":
+		return func(e *Engine, st *State, fr *Frame, fn *ssa.Function, args []Val, in ssa.Instruction) (Val, bool) {
+			le, ok := orderIsLE(args[1])
+			if !ok {
+				return Val{}, false
+			}
+			data := args[2]
+			if data.iTag().Op != OConst {
+				return Val{}, false
+			}
+			T := typeOfTag[data.iTag().Val]
+			pt, isPtr := T.Underlying().(*types.Pointer)
+			if !isPtr {
+				return Val{}, false
+			}
+			p := e.unbox(st, data, T)
+			pi := ptrInfo(p)
+			e.ioFail(st, fr, in, bindOf(in), func(o *State, err Val) Val {
+				o.havocAt(pi, pt.Elem(), "binreaderr")
+				e.havocStream(o, e.resolveAlias(o, streamRef(args[0])), false)
+				return err
+			})
+			e.binReadInto(st, streamRef(args[0]), pi, pt.Elem(), le, in)
+			return nilError(), true
 		}
 	}
 	return nil
